@@ -367,6 +367,8 @@ def step (ctx : Ctx) (lhs : String) (implObs : String := "") : Ctx × String :=
     | _, _ => (ctx, "bad-op")
   | "illegal" :: _ => (ctx, "")
   | "seq" :: _ => (ctx, "")
+  | "crash" :: _ => (ctx, "")
+  | "pool" :: _ => (ctx, "")
   | "dump" :: c :: rest =>
     match uuidOf c with
     | none => (ctx, "bad-op")
